@@ -1,4 +1,9 @@
+mod c46;
+
 fn main() {
-    eprintln!("no sub-commands yet");
-    std::process::exit(2);
+    // process-global environment of the placeholder part of C46: fixed before any thread exists
+    c46::install_env();
+    vf_kit::dispatch! {
+        "c46" => c46::C46,
+    }
 }
